@@ -29,11 +29,49 @@ type sctx struct {
 	stepHook func(sc *sctx, n int, name string) // called before each step (C08 injection point)
 	clients  []*capnp.Client
 	closed   int32 // Close already called by an injector
+	kind     ctxKind
 }
 
-func newSctx(b *bench) *sctx {
-	sc := &sctx{b: b, hostile: make(chan struct{})}
-	sc.ctx, sc.cancel = context.WithCancel(context.Background())
+// ctxKind is the kind of Context the application script hands to the
+// library (Bootstrap, Resolve, every call).  A cancellable Context that is
+// never cancelled, context.Background() and context.TODO() must be
+// indistinguishable as far as C09 is concerned: whatever the Context can or
+// cannot do, a pending operation has to end when the connection does.
+type ctxKind int
+
+const (
+	ctxCancellable ctxKind = iota // WithCancel, cancelled only by the cancel action / after the epilogue
+	ctxBackground                 // context.Background(): Done() == nil
+	ctxTODO                       // context.TODO(): Done() == nil
+	nCtxKinds
+)
+
+var ctxKindNames = [...]string{"cancellable", "background", "todo"}
+
+func (k ctxKind) String() string { return ctxKindNames[k] }
+
+func ctxKindByName(n string) (ctxKind, bool) {
+	for k := ctxKind(0); k < nCtxKinds; k++ {
+		if ctxKindNames[k] == n {
+			return k, true
+		}
+	}
+	return ctxCancellable, false
+}
+
+func newSctx(b *bench) *sctx { return newSctxKind(b, ctxCancellable) }
+
+func newSctxKind(b *bench, kind ctxKind) *sctx {
+	sc := &sctx{b: b, hostile: make(chan struct{}), kind: kind}
+	switch kind {
+	case ctxBackground:
+		sc.ctx, sc.cancel = context.Background(), func() {}
+	case ctxTODO:
+		sc.ctx, sc.cancel = context.TODO(), func() {}
+	default:
+		sc.ctx, sc.cancel = context.WithCancel(context.Background())
+	}
+	b.ctxKind = kind
 	return sc
 }
 
